@@ -190,9 +190,12 @@ type determCase struct {
 	// (same transactions; "root" = wrong state root in the header, "tx" = one more transaction that
 	// fails) through the real addBlock; "root+restart" additionally re-initialises the process-wide
 	// governance state from the best block's state afterwards (node restart)
-	RefuseBefore uint64        `json:"refuse_before"`
-	RefuseKind   string        `json:"refuse_kind"`
-	Blocks       []determBlock `json:"blocks"`
+	// hardfork heights (version -> first block number of that version); overrides "ver": the chain
+	// crosses hardfork boundaries
+	ForkHeights  map[string]uint64 `json:"fork_heights"`
+	RefuseBefore uint64            `json:"refuse_before"`
+	RefuseKind   string            `json:"refuse_kind"`
+	Blocks       []determBlock     `json:"blocks"`
 }
 
 type determValidateIn struct {
@@ -260,6 +263,11 @@ type determGhost struct {
 
 type determBlockOut struct {
 	No uint64 `json:"no"`
+	// produce: blocks connected earlier whose header bytes / recomputed hash (as held by the node:
+	// the object the block factory was handed, and the block re-read by number) differ from what
+	// they were when the block was connected
+	HeaderChanged []string `json:"header_changed,omitempty"`
+	Version       int32    `json:"version"`
 	// validate, refuse_before: error with which the refused sibling was rejected
 	Refused string `json:"refused,omitempty"`
 	// produce
@@ -446,6 +454,15 @@ func newDetermNode(c *determCase) *determNode {
 	cfg.EnableTestmode = false
 	cfg.UseTestnet = false
 	cfg.Hardfork = determHardfork(c.Ver)
+	if len(c.ForkHeights) > 0 {
+		fh := func(v string) types.BlockNo {
+			if h, ok := c.ForkHeights[v]; ok {
+				return h
+			}
+			return math.MaxUint64
+		}
+		cfg.Hardfork = &config.HardforkConfig{V2: fh("2"), V3: fh("3"), V4: fh("4"), V5: fh("5")}
+	}
 	if c.Coinbase != nil {
 		cfg.Consensus.EnableBp = true
 		cfg.Blockchain.CoinbaseAccount = types.EncodeAddress(n.accts[*c.Coinbase].addr)
@@ -532,7 +549,13 @@ func (n *determNode) close() {
 // ---------------------------------------------------------------- transactions
 
 func (n *determNode) chainIDHash(ts int64) []byte {
-	bi := types.NewBlockHeaderInfoFromPrevBlock(n.genesis, ts, n.cs.cfg.Hardfork)
+	// the chain id (with the fork version of the NEXT block) as the mempool derives it for admission:
+	// from the header of the current best block (mempool.setStateDB)
+	prev := n.genesis
+	if best, err := n.cs.GetBestBlock(); err == nil {
+		prev = best
+	}
+	bi := types.NewBlockHeaderInfoFromPrevBlock(prev, ts, n.cs.cfg.Hardfork)
 	return bi.ChainIdHash()
 }
 
@@ -693,6 +716,14 @@ func determVM(kind string, cs *statedb.ContractState, payload, id []byte) (strin
 		events = append(events, &types.Event{ContractAddress: id, EventIdx: 0, EventName: ev, JsonArgs: "[" + strconv.Quote(get(2)) + "]"})
 	}
 	return strconv.Quote(get(0) + ":" + get(2)), events, "", vmFee, nil
+}
+
+// determHeaderPrint: the header bytes of a block and the hash recomputed from them (not the cached id)
+func determHeaderPrint(b *types.Block) string {
+	raw, _ := proto.Encode(b.GetHeader())
+	c := proto.Clone(b).(*types.Block)
+	c.Hash = nil
+	return fmt.Sprintf("version=%d header=%x hash=%x", types.DecodeChainIdVersion(b.GetHeader().GetChainID()), sha256.Sum256(raw), c.BlockHash())
 }
 
 // ---------------------------------------------------------------- producer path
@@ -1007,8 +1038,15 @@ func determProduce(c *determCase) *determOut {
 	for _, a := range n.accts {
 		out.Accts = append(out.Accts, hx(a.addr))
 	}
+	hdrObjs, hdrAt := []*types.Block{}, map[uint64]string{}
 	for bi, b := range c.Blocks {
 		o := determBlockOut{No: uint64(bi + 1)}
+		if best, err := n.cs.GetBestBlock(); err == nil {
+			if _, seen := hdrAt[best.BlockNo()]; !seen { // recorded before anything derives the next chain id from it
+				hdrObjs = append(hdrObjs, best)
+				hdrAt[best.BlockNo()] = determHeaderPrint(best)
+			}
+		}
 		cid := n.chainIDHash(b.Ts)
 		cand := []*types.Tx{}
 		idx := []int{}
@@ -1028,7 +1066,25 @@ func determProduce(c *determCase) *determOut {
 			out.Blocks = append(out.Blocks, o)
 			break
 		}
+		if _, seen := hdrAt[prev.BlockNo()]; !seen {
+			hdrObjs = append(hdrObjs, prev)
+			hdrAt[prev.BlockNo()] = determHeaderPrint(prev)
+		}
 		p := n.produceOn(prev, b.Ts, cand, b.Deadline)
+		// a connected block never changes: neither the object the factory was handed nor the stored one
+		for _, ob := range hdrObjs {
+			if now := determHeaderPrint(ob); now != hdrAt[ob.BlockNo()] {
+				o.HeaderChanged = append(o.HeaderChanged, fmt.Sprintf("block %d (in-memory best block object): %s -> %s", ob.BlockNo(), hdrAt[ob.BlockNo()], now))
+			}
+			if re, err := n.cs.getBlockByNo(ob.BlockNo()); err == nil {
+				if now := determHeaderPrint(re); now != hdrAt[ob.BlockNo()] {
+					o.HeaderChanged = append(o.HeaderChanged, fmt.Sprintf("block %d (re-read by number): %s -> %s", ob.BlockNo(), hdrAt[ob.BlockNo()], now))
+				}
+			}
+		}
+		if p.block != nil {
+			o.Version = types.DecodeChainIdVersion(p.block.GetHeader().GetChainID())
+		}
 		o.Included = []int{}
 		o.Skipped = bad
 		for _, i := range p.included {
